@@ -8,6 +8,8 @@
  *   VERIF_FAIL_WRITE      n > 0: the n-th write-class call on a target fails with EIO (fault injection)
  *   VERIF_FAIL_COUNT      how many consecutive write-class calls fail from there (default 1)
  *   VERIF_CRASH_AFTER     n > 0: _exit(97) right after the n-th write-class/fsync event on a target
+ *   VERIF_TIME_SHIFT      seconds added to time(), gettimeofday() and clock_gettime(CLOCK_REALTIME): simulates "the same
+ *                         command run later" so that reproducibility under a fixed E2FSPROGS_FAKE_TIME can be checked
  *
  * Offsets are emitted split into hi/lo at 2^31 so that TLC's 32-bit integers can hold them.
  */
@@ -24,6 +26,8 @@
 #include <sys/stat.h>
 #include <sys/uio.h>
 #include <unistd.h>
+#include <time.h>
+#include <sys/time.h>
 
 #define MAXFD 1024
 static char tracked[MAXFD];
@@ -382,4 +386,51 @@ int posix_fallocate(int fd, off_t off, off_t len)
 	if (IS(fd) && wr_event("fallocate", fd, off, len, NULL, 0))
 		return EIO;
 	return r_posix_fallocate(fd, off, len);
+}
+
+/* ---- wall clock shift (reproducibility checks) ---- */
+static long time_shift(void)
+{
+	static long sh = -1;
+	if (sh == -1) {
+		const char *p = getenv("VERIF_TIME_SHIFT");
+		sh = p ? atol(p) : 0;
+	}
+	return sh;
+}
+
+time_t time(time_t *t)
+{
+	static time_t (*r_time)(time_t *);
+	time_t v;
+	if (!r_time)
+		r_time = dlsym(RTLD_NEXT, "time");
+	v = r_time(NULL) + time_shift();
+	if (t)
+		*t = v;
+	return v;
+}
+
+int gettimeofday(struct timeval *tv, void *tz)
+{
+	static int (*r_gtod)(struct timeval *, void *);
+	int r;
+	if (!r_gtod)
+		r_gtod = dlsym(RTLD_NEXT, "gettimeofday");
+	r = r_gtod(tv, tz);
+	if (r == 0 && tv)
+		tv->tv_sec += time_shift();
+	return r;
+}
+
+int clock_gettime(clockid_t id, struct timespec *ts)
+{
+	static int (*r_cg)(clockid_t, struct timespec *);
+	int r;
+	if (!r_cg)
+		r_cg = dlsym(RTLD_NEXT, "clock_gettime");
+	r = r_cg(id, ts);
+	if (r == 0 && ts && id == CLOCK_REALTIME)
+		ts->tv_sec += time_shift();
+	return r;
 }
